@@ -361,7 +361,10 @@ func (s *TxStore) removeDoubleSpends(tx mwdb.DBTransaction, rec *TxRecord) error
 		prevOut := &rec.MsgTx.TxIn[rel.Index].PreviousOutPoint
 		prevOutKey := canonicalOutPoint(&prevOut.Hash, prevOut.Index)
 
-		doubleSpendHashes := fetchUnminedInputSpendTxHashes(nsUnminedInputs, prevOutKey)
+		doubleSpendHashes, err := fetchUnminedInputSpendTxHashes(nsUnminedInputs, prevOutKey)
+		if err != nil {
+			return err
+		}
 		for _, doubleSpendHash := range doubleSpendHashes {
 			doubleSpendVal, err := existsRawUnmined(nsUnmined, doubleSpendHash[:])
 			if err != nil {
@@ -402,7 +405,10 @@ func (s *TxStore) removeConflict(tx mwdb.DBTransaction, rec *TxRecord) error {
 
 	for i := range rec.MsgTx.TxOut {
 		k := canonicalOutPoint(&rec.Hash, uint32(i))
-		spenderHashes := fetchUnminedInputSpendTxHashes(nsUnminedInputs, k)
+		spenderHashes, err := fetchUnminedInputSpendTxHashes(nsUnminedInputs, k)
+		if err != nil {
+			return err
+		}
 		for _, spenderHash := range spenderHashes {
 			spenderVal, err := existsRawUnmined(nsUnmined, spenderHash[:])
 			if err != nil {
@@ -1088,7 +1094,10 @@ func (s *TxStore) Rollback(tx mwdb.DBTransaction, height uint64) error {
 	// remove coinbase credits
 	for _, op := range coinBaseCredits {
 		opKey := canonicalOutPoint(&op.Hash, op.Index)
-		unminedSpendTxHashKeys := fetchUnminedInputSpendTxHashes(nsUnminedInputs, opKey)
+		unminedSpendTxHashKeys, err := fetchUnminedInputSpendTxHashes(nsUnminedInputs, opKey)
+		if err != nil {
+			return err
+		}
 		for _, unminedSpendTxHashKey := range unminedSpendTxHashKeys {
 			unminedVal, err := existsRawUnmined(nsUnmined, unminedSpendTxHashKey[:])
 			if err != nil {
